@@ -29,18 +29,18 @@ Sc(kinds, facts, sigok, priceok, gas, intr) ==
   [kinds |-> kinds, facts |-> facts, sigok |-> sigok, priceok |-> priceok, gas |-> gas, intr |-> intr]
 
 \* ---- concrete clause kinds (the table of cmd/txexec) ----------------------------------------------------------
-OkU == {"store", "storeval", "nest", "nestok", "nestinv", "clear", "send", "ecall"}
-OkOther == {"xfer", "energy", "sd", "sdself"}
+OkU == {"store", "storeval", "nest", "nestok", "nestinv", "clear", "send", "ecall", "nest3sd"}
+OkOther == {"xfer", "energy", "sd", "sdself", "sdben"}
 OkNil == {"create"}
 KeepU == {"revert", "nestdie"}
-KeepOther == {"xferfail"}
+KeepOther == {"xferfail", "diesd"}
 KeepNil == {"createfail"}
 AllU == {"invalid", "oog"}
 Kinds == OkU \cup OkOther \cup OkNil \cup KeepU \cup KeepOther \cup KeepNil \cup AllU
 ClassOf(k) == IF k \in OkU \cup OkOther \cup OkNil THEN "ok" ELSE IF k \in AllU THEN "errall" ELSE "errkeep"
 ToU(k) == k \in OkU \cup KeepU \cup AllU
 CommonTo(names) == \A i \in 1..Len(names) : ToU(names[i])
-Core == {"store", "sdself", "clear", "revert", "invalid", "oog"}
+Core == {"store", "sdself", "sdben", "clear", "revert", "invalid", "oog"}
 
 Concrete(names, setup, txtype, start) ==
   [kinds |-> [i \in 1..Len(names) |-> ClassOf(names[i])], names |-> names, setup |-> setup, txtype |-> txtype, start |-> start,
